@@ -352,7 +352,7 @@ pub fn replay_case(case: &serde_json::Value) -> String {
     }
   };
   let recorded = g("observed");
-  let same = |x: &str, y: &str| x == y || matches!((x.parse::<FeelNumber>(), y.parse::<FeelNumber>()), (Ok(p), Ok(q)) if p == q);
+  let same = |x: &str, y: &str| x == y || x.eq_ignore_ascii_case(y) || matches!((x.parse::<FeelNumber>(), y.parse::<FeelNumber>()), (Ok(p), Ok(q)) if p == q);
   if same(&observed, &expected) {
     format!("PASS {} `{}` of {}, {} gives {} (expected {})", level, op, ta, tb, observed, expected)
   } else {
